@@ -7,6 +7,7 @@ FUNCTIONS = [c.qualname for c in _d.CONTRACTS if not c.trusted]
 ENGINE = RefsEngine
 RAC = "rac/c05.py"
 RAC_BUDGET = {"quick": 60, "thorough": 120}
+RAC_MIN = {"quick": 955, "thorough": 955}      # fewer run-time evaluations than this = the harness skipped its work: checker broken, not "held"
 DESIGN_REF = "DESIGN.md section 4, C05"
 TECHNIQUE = "contract-based deductive verification (pyvc, z3: set-valued postcondition result == out U locs(self) per override) + run-time contracts per node class and slot"
 TRUSTED = ["tuple slots are finite sequences (tuple_len/tuple_at)", "z3", "Cython compiles refs.py faithfully"]
